@@ -394,6 +394,40 @@ func c14Coverage(w *World, r *Report) {
 			ok = ok && sameVal(a[1], fieldOfArg(mg[0].Common().Args[0], a[1])) // new endpoints are the ones just managed
 		}
 		r.Check(ok, "R5", shortName(site.fn)+"/manage-new-before-unmanaging-difference", f.Pos(), "the new endpoint set is registered (error returned) before EndpointsToUnmanage(old, new) is un-managed")
+		// manage-all is withdrawn only when the previous configuration had it and the new one does not
+		for _, c := range CallsIn(f, false, "config.unmanageGlobalVoided", "config.scheduleUnmanageHAProxyGlobal") {
+			cs := expandConds(CondsOf(c.Block()))
+			prev := condsHave(cs, true, func(v ssa.Value) bool { return strings.HasSuffix(Path(v), "ManageAll") && strings.Contains(strings.ToLower(Path(v)), "previous") })
+			notNew := condsHave(cs, false, func(v ssa.Value) bool { return strings.HasSuffix(Path(v), "ManageAll") && strings.Contains(strings.ToLower(Path(v)), "new") })
+			// the condition may be a named boolean: previous && !new
+			if !prev || !notNew {
+				for _, cd := range cs {
+					if !cd.Pol {
+						continue
+					}
+					if ph, isPhi := cd.V.(*ssa.Phi); isPhi {
+						ok2 := false
+						for i, e := range ph.Edges {
+							if u, isU := e.(*ssa.UnOp); isU && u.Op == token.NOT && strings.HasSuffix(Path(u.X), "ManageAll") && Derives(u.X, func(x ssa.Value) bool { return isCallTo0(x, "config.BuildHAProxyEndpointsRequest") && strings.Contains(Path(x), "newPoliciesData") }) {
+								ec := CondsOfEdge(ph.Block().Preds[i], ph.Block())
+								if condsHave(ec, true, func(v ssa.Value) bool {
+									return strings.HasSuffix(Path(v), "ManageAll") && Derives(v, func(x ssa.Value) bool { return isCallTo0(x, "config.BuildHAProxyEndpointsRequest") && !strings.Contains(Path(x), "newPoliciesData") })
+								}) {
+									ok2 = true
+								}
+							} else if k, isK := constBool(e); !(isK && !k) {
+								ok2 = false
+								break
+							}
+						}
+						if ok2 {
+							prev, notNew = true, true
+						}
+					}
+				}
+			}
+			r.Check(prev && notNew, "R5", shortName(site.fn)+"/manage-all-withdrawn-only-when-dropped/"+calleeShort(calleeID(c)), posOf(c), "%s runs only when the previous request had ManageAll (=%v) and the new one has not (=%v): a reload that keeps a catch-all flow or a global plugin must not un-manage all traffic", calleeShort(calleeID(c)), prev, notNew)
+		}
 		// policies mode: the new policies version is served only once its endpoints are registered
 		if sv := CallsIn(f, false, "TxnPoliciesAccessor).setNextVersion"); len(sv) > 0 && len(mg) == 1 {
 			okV := true
